@@ -1821,7 +1821,8 @@ class TLSConnection(TLSRecordLayer):
                                              nextProto,
                                              settings=settings):
                 yield result
-            self.sock.flush()
+            for result in self.sock.flush_async():
+                yield result
             self.sock.buffer_writes = False
 
             #Set the session for this connection
@@ -2050,7 +2051,8 @@ class TLSConnection(TLSRecordLayer):
         for result in self._sendFinished(masterSecret, cipherSuite, nextProto,
                 settings=settings):
             yield result
-        self.sock.flush()
+        for result in self.sock.flush_async():
+            yield result
         self.sock.buffer_writes = False
         for result in self._getFinished(masterSecret,
                                         cipherSuite,
@@ -4920,7 +4922,8 @@ class TLSConnection(TLSRecordLayer):
         finished = Finished(self.version).create(verifyData)
         for result in self._sendMsg(finished):
             yield result
-        self.sock.flush()
+        for result in self.sock.flush_async():
+            yield result
         self.sock.buffer_writes = False
 
     def _getFinished(self, masterSecret, cipherSuite=None,
